@@ -308,7 +308,7 @@ pub fn run_c12(ctx: &Ctx) -> i32 {
         Some((BTreeMap::new(), decode_ops(idx, len, &alphabet)))
     }));
     // (c) random long histories over generated projects
-    let n_rand = ctx.tier.pick(250u64, 15_000);
+    let n_rand = ctx.tier.pick(400u64, 15_000);
     stats.merge(par_cases(ctx, "random_histories", n_rand, Duration::from_secs(ctx.tier.pick(60, 1500)), |i, rng, st| {
         let cfg = ProjCfg { allow_collisions: false, allow_ambiguous: false, max_members: 3, max_type_depth: 2, ..ProjCfg::default() };
         let pr = proj::project(rng, &cfg);
@@ -330,6 +330,11 @@ pub fn run_c12(ctx: &Ctx) -> i32 {
             }
             mine.push(contents.len());
             contents.push(mutate::token_soup(rng, 10));
+            // the same text with different leading / trailing trivia (positions differ, nothing else)
+            mine.push(contents.len());
+            contents.push(format!("{}{}", rng.pick_str(&["\n", " ", "\n\n  ", "/* moved */ ", "\t"]), f.text));
+            mine.push(contents.len());
+            contents.push(format!("{}{}", f.text, rng.pick_str(&["\n", "  ", " // end", "\n\n"])));
             per_id.push(mine);
         }
         let w = World::new(&format!("{}-r{}", thread_tag(), i), n_ids, contents);
@@ -337,6 +342,16 @@ pub fn run_c12(ctx: &Ctx) -> i32 {
         let mut ops = Vec::new();
         for _ in 0..len {
             let id = rng.below(n_ids);
+            if rng.chance(1, 6) {
+                // base text, then (maybe after a validate) a trivia-only variant of it, or the other way round
+                let (a, b) = if rng.chance(1, 2) { (0, 4 + rng.below(2)) } else { (4 + rng.below(2), 0) };
+                ops.push(if rng.chance(1, 3) { Op::AddFile(id, per_id[id][a]) } else { Op::Add(id, per_id[id][a]) });
+                if rng.chance(1, 2) {
+                    ops.push(Op::Validate);
+                }
+                ops.push(if rng.chance(1, 3) { Op::AddFile(id, per_id[id][b]) } else { Op::Add(id, per_id[id][b]) });
+                continue;
+            }
             ops.push(match rng.below(12) {
                 0..=4 => Op::Add(id, *rng.pick(&per_id[id])),
                 5 => Op::AddFile(id, *rng.pick(&per_id[id])),
